@@ -589,11 +589,31 @@ class C19(Prop):
         ctx.append(['a', rng.choice([None, rng.below(10)])])
       defined = {k for k, _ in ctx}
       prog = [mini_stmt(rng, defined) for _ in range(rng.randint(1, 6))]
-      yield {'op': 'mini', 'prog': prog, 'ctx': ctx, 'code': mini_render(prog)}
+      case = {'op': 'mini', 'prog': prog, 'ctx': ctx, 'code': mini_render(prog)}
+      if rng.chance(0.5):
+        # head and tail together: an explicit permission and / or an enclosing scope
+        def sub():
+          k = rng.below(5)
+          if k == 0:
+            return list(FLAGS)
+          if k == 1:
+            return [f for f in FLAGS if f != 'ASSIGN']
+          if k == 2:
+            return [f for f in FLAGS if f != 'CALL']
+          if k == 3:
+            return ['ASSIGN', 'CALL']
+          return [f for f in FLAGS if rng.chance(0.5)]
+        m = rng.below(3)
+        case['explicit'] = sub() if m != 1 else None
+        case['scopes'] = [sub()] if m != 0 else []
+      yield case
 
   def model_request(self, case):
     if case.get('op') == 'mini':
-      return {'op': 'tail', 'prog': case['prog'], 'ctx': case['ctx']}
+      req = {'op': 'tail', 'prog': case['prog'], 'ctx': case['ctx']}
+      if 'scopes' in case:
+        req['explicit'], req['scopes'] = case['explicit'], case['scopes']
+      return req
     case = self.with_tree(case)
     if case.get('tree') is None:
       return None
@@ -625,8 +645,27 @@ class C19(Prop):
       except Exception as e:   # pylint: disable=broad-except
         return {'outcome': 'error', 'error': type(e).__name__, 'unwrapped': True}
 
+    P = coding.CodePermission
+
+    def perm(names):
+      if names is None:
+        return None
+      p = P(0)
+      for n in names:
+        p |= P[n]
+      return p
+
     def real(g):
-      out = coding.evaluate(code, global_vars=g, outputs_intermediate=True)
+      try:
+        with contextlib.ExitStack() as stack:
+          for sc_ in case.get('scopes', []):
+            stack.enter_context(coding.permission(perm(sc_)))
+          out = coding.evaluate(code, global_vars=g, permission=perm(case.get('explicit')),
+                                outputs_intermediate=True)
+      except coding.CodeError as e:
+        if isinstance(e.cause, SyntaxError):
+          return {'outcome': 'rejected', 'line': e.lineno}
+        raise
       stdout = out.pop('__stdout__')
       result = out.pop('__result__', None)
       return {'outcome': 'ok', 'result': mini_val(result),
@@ -775,6 +814,25 @@ class C19(Prop):
 
   def oracle_mini(self, case, out):
     obs, ref = out['obs'], out['ref']
+    if 'scopes' in case:
+      granted = self.granted({'explicit': case['explicit'], 'scopes': case['scopes']})
+      if granted is not None:
+        def has_call(e):
+          return e[0] == 'print' or any(has_call(x) for x in e[1:] if isinstance(x, list) and x and isinstance(x[0], str))
+        needs = set()
+        for st in case['prog']:
+          if st[0] in ('assign', 'aug'):
+            needs.add('ASSIGN')
+          if st[0] != 'pass' and has_call(st[-1]):
+            needs.add('CALL')
+        if needs - granted:
+          if obs.get('outcome') != 'rejected':
+            return {'signature': 'ungated:' + ('Assign' if 'ASSIGN' in needs - granted else 'Call'),
+                    'what': 'the program needs %s, granted=%s, but it was not refused: %s' % (
+                        sorted(needs - granted), sorted(granted), obs)}
+          return None
+      if obs.get('outcome') == 'rejected':
+        return None      # stricter gating than the property demands: compared with the model, never a violation
     if obs.get('unwrapped'):
       return {'signature': 'error-not-wrapped', 'what': 'evaluate raised a bare %s' % obs['error']}
     if ref['outcome'] == 'error':
@@ -864,7 +922,9 @@ class C19(Prop):
 
   def describe(self, case, out):
     if case.get('op') == 'mini':
-      return ['mini', 'mini-last:' + case['prog'][-1][0], 'mini-outcome:' + out['obs'].get('outcome', '?') +
+      return ['mini', 'mini-perm:' + ('none' if 'scopes' not in case else
+                                    ('explicit' if case['explicit'] is not None else '') + ('+scope' if case['scopes'] else '')),
+            'mini-last:' + case['prog'][-1][0], 'mini-outcome:' + out['obs'].get('outcome', '?') +
               (':' + out['obs']['error'] if out['obs'].get('outcome') == 'error' else '')]
     h = []
     obs = out['obs']
